@@ -11,6 +11,7 @@ import (
 	"github.com/hashicorp/hcl/v2"
 	"github.com/hashicorp/hcl/v2/hclsyntax"
 	"github.com/zclconf/go-cty/cty"
+	"github.com/zclconf/go-cty/cty/convert"
 
 	"verif/harness/core"
 	"verif/harness/e1"
@@ -236,15 +237,23 @@ func Handle(c *core.Check, st core.State) {
 						if sd.HasErrors() {
 							continue
 						}
-						_, d0 := se.Value(&hcl.EvalContext{Variables: e1.With(sc0, extra), Functions: funcs})
-						_, d1 := se.Value(&hcl.EvalContext{Variables: e1.With(sc1, extra), Functions: funcs})
-						if d0.HasErrors() != d1.HasErrors() {
+						a0, d0 := se.Value(&hcl.EvalContext{Variables: e1.With(sc0, extra), Functions: funcs})
+						a1, d1 := se.Value(&hcl.EvalContext{Variables: e1.With(sc1, extra), Functions: funcs})
+						if d0.HasErrors() != d1.HasErrors() || (d0.HasErrors() && d1.HasErrors() && !a0.Type().Equals(a1.Type())) {
 							site = "cond/unselected-arm-error"
+						}
+					}
+					// root cause: the two results are the same value of different TYPES, and the type was
+					// unified with an arm whose (nested) marks are not collected: only top-level marks of
+					// the arms are combined into the result
+					if site == "cond" {
+						if c1, err := convert.Convert(u1, u0.Type()); (err == nil && c1.RawEquals(u0)) || (u0.IsNull() && u1.IsNull()) {
+							site = "cond/result-type-from-marked-arm"
 						}
 					}
 				}
 				sig := "mark-lost/" + p.how + "/" + site
-				if strings.HasSuffix(site, "/failed-argument") || site == "cond/unselected-arm-error" {
+				if strings.HasSuffix(site, "/failed-argument") || site == "cond/unselected-arm-error" || site == "cond/result-type-from-marked-arm" {
 					sig = "mark-lost/" + site // a named root cause, wherever the mark sits
 				}
 				if !c.Violation(sig,
